@@ -439,6 +439,11 @@ class PL2Scorer(WeightLengthScorer):
         self.qf = qf
         self.setup(searcher, fieldname, text)
 
+    def supports_block_quality(self):
+        # Like DFree, the PL2 formula is not monotone in weight and length,
+        # so score(max weight, min length) is not an upper bound for a block
+        return False
+
     def _score(self, weight, length):
         return pl2(weight, self.cf, self.qf, self.dc, length, self.avgfl,
                    self.c)
